@@ -326,6 +326,17 @@ def pool_rule(ctx):
     en = PH.methods.get("__enter__")
     if en is None:
         raise AnalysisError("PoolHandler.__enter__ not found")
+    # a wrapper installed in a loop must be bound to its own callable: a closure that reads the loop variable late calls the last target for every name,
+    # so the value stored as log_likelihood of row i is the prior of row i
+    from .common import late_bound_closures
+    lbs = [(m_, c_, L_, v_) for m_ in PH.methods.values() for c_, L_, v_ in late_bound_closures(m_)]
+    ctx.decide(not lbs, "C10.pool", PH.ident, loc_of(lbs[0][0], lbs[0][1]) if lbs else loc_of(en),
+               "no wrapper the pool handler installs reads a loop variable late (each pooled callable wraps its own target)",
+               (f"{lbs[0][0].name}: a closure created in the loop at line {lbs[0][2].lineno} reads `{lbs[0][3]}` late: every wrapper installed by that loop calls the last target, so with "
+                "parallelize_prior the callable installed as the likelihood evaluates the prior and the cached log_likelihood of row i is not the user's likelihood at row i") if lbs else "",
+               disc="late-binding")
+    if lbs:
+        return
     ev = Evaluator(repo, max_depth=0)
     ev.run(en, PH)
     parts = [e for e in ev.events if e.func is en and e.callee.endswith("partial") and "map_fn" in dict(e.kwargs)]
@@ -540,6 +551,12 @@ MUTANTS += [
     M("saving a flow removes the data transform from its recorded constructor arguments", "src/aspire/flows/torch/flows.py", "config = self.config_dict().copy()\n        data_transform = config.pop(\"data_transform\", None)", "config = self.config_dict()\n        data_transform = config.pop(\"data_transform\", None)\n        config = dict(config)", "C10rt"),
     M("nan patch written into the cached likelihood", "src/aspire/samplers/smc/base.py", "log_prob = update_at_indices(\n            log_prob, self.xp.isnan(log_prob), -self.xp.inf\n        )", "update_at_indices(samples.log_likelihood, self.xp.isnan(log_prob), -self.xp.inf)", "C10.own"),
 ]
+MUTANTS += [
+    M("pool wrappers built in a loop over the targets (late-binding lambda: both call the last callable)", "src/aspire/utils.py",
+      "self.aspire_instance.log_likelihood = partial(\n                self.original_log_likelihood, map_fn=self.pool.map\n            )",
+      "for name in [\"log_likelihood\"] + ([\"log_prior\"] if self.parallelize_prior else []):\n                original = getattr(self.aspire_instance, name)\n                setattr(self.aspire_instance, name, lambda samples, **kw: original(samples, map_fn=self.pool.map, **kw))", "C10.pool"),
+]
+
 NEUTRALS = [
     __import__("aspire_sa.rules.smcloop", fromlist=["HELPER_NEUTRAL"]).HELPER_NEUTRAL,
     M("bounded step through a private helper that writes into the caller's working copy", _T, "y, log_j_bounded = self._bounded_transform.forward(\n                x[..., self.bounded_mask]\n            )\n            x = update_at_indices(x, (slice(None), self.bounded_mask), y)\n            log_abs_det_jacobian += log_j_bounded", "x, log_j_bounded = self._put_bounded(x, self._bounded_transform.forward)\n            log_abs_det_jacobian += log_j_bounded",
